@@ -406,7 +406,12 @@ def run(model, col, tier):
                       f"{kind} range is formatted from {got}; expected {exp} (1-based; the end column is measured from the start of the END line)", ASTF, c)
     col.check(seen == set(want), "R20.5", f"{ASTF}::Location.__str__ formats", "single-line `l:c-c` and multi-line `l:c-l:c` forms exist",
               f"range formats found: {sorted(seen)}; expected both l:c-c and l:c-l:c", ASTF, sf)
-    sl_if = [n for n in ast.walk(sf) if isinstance(n, ast.If) and "startLine == endLine" in unparse(n.test)]
+    from ..sem import local_env as _le205, rtext as _rt205
+
+    env205 = _le205(sf)
+    lb_, le_ = "self.__sourceMapping.GetLineFromOffset(self.GetBegin())", "self.__sourceMapping.GetLineFromOffset(self.GetEnd())"
+    sl_if = [n for n in ast.walk(sf) if isinstance(n, ast.If) and _rt205(n.test, env205) in (f"{lb_} == {le_}", f"{le_} == {lb_}")
+             and any(isinstance(r_, ast.Return) and "{}:{}-{}" in unparse(r_) and "{}:{}-{}:{}" not in unparse(r_) for s_ in n.body for r_ in ast.walk(s_))]
     col.check(bool(sl_if), "R20.5", f"{ASTF}::Location.__str__ single/multi-line split", "the short form is used exactly when begin and end are on one line", "the single-line form is not selected by startLine == endLine", ASTF, sf)
     li = loc.own_method("__init__")
     col.check("span[1] >= span[0]" in unparse(li), "R20.5", f"{ASTF}::Location.__init__ span order", "a span's end is not before its begin", None, ASTF, li)
